@@ -221,6 +221,20 @@ def find_case(cases_path, t):
     return None
 
 
+def cases_before(cases_path, t, limit):
+    """the (at most `limit`) cases the generating process executed immediately before case t"""
+    out = []
+    with open(cases_path) as f:
+        for line in f:
+            c = json.loads(line)
+            if c.get("t") == t:
+                break
+            out.append(c)
+            if len(out) > limit:
+                out.pop(0)
+    return out
+
+
 # --------------------------------------------------------------------------- findings
 
 def load_findings():
@@ -439,6 +453,20 @@ def run_check(prop, stages, tier, seed, assumptions, rule, replay=None):
                     confirmed = rp
                     break
                 os.remove(rp)
+                if (job, t) == (members[0][0], members[0][1]) and not st.race:
+                    # the step may depend on what the process did before it (the properties hold for every history):
+                    # execute the case again after the calls that preceded it in the generating process, shortest first
+                    for k in (1, 8, 64, 512):
+                        hist = cases_before(job[5], t, k)
+                        rp = _save_replay(prop, st.family, tag, site, case, history=hist)
+                        if _reproduces(st, drivers[st.race], work, rp, tag):
+                            confirmed = rp
+                            break
+                        os.remove(rp)
+                        if len(hist) < k:
+                            break
+                    if confirmed:
+                        break
             if confirmed is None:
                 # not a verdict (never reported as a violation); remembered, and exit 2 unless something else is confirmed
                 unreproduced.append("%s at %s" % (tag, site))
@@ -467,13 +495,16 @@ def run_check(prop, stages, tier, seed, assumptions, rule, replay=None):
         shutil.rmtree(work, ignore_errors=True)
 
 
-def _save_replay(prop, family, tag, site, case):
+def _save_replay(prop, family, tag, site, case, history=None):
     d = os.path.join(VERIF, "replays", prop)
     os.makedirs(d, exist_ok=True)
-    h = hashlib.md5(json.dumps(case, sort_keys=True).encode()).hexdigest()[:10]
+    h = hashlib.md5(json.dumps([case, history], sort_keys=True).encode()).hexdigest()[:10]
     p = os.path.join(d, "%s_%s.json" % (tag.replace("/", "_"), h))
+    doc = dict(property=prop, family=family, tag=tag, site=site, case=case)
+    if history:
+        doc["history"] = history     # cases executed before it in the same process
     with open(p, "w") as f:
-        json.dump(dict(property=prop, family=family, tag=tag, site=site, case=case), f)
+        json.dump(doc, f)
         f.write("\n")
     return p
 
@@ -484,13 +515,15 @@ def _reproduces(st, driver, work, replay_path, tag, _attempt=0):
     cases = os.path.join(work, "repro.cases.ndjson")
     trace = os.path.join(work, "repro.trace.ndjson")
     with open(cases, "w") as f:
+        for c in doc.get("history", []):
+            f.write(json.dumps(c) + "\n")
         f.write(json.dumps(doc["case"]) + "\n")
     env = st.driver_env
     if env == "RACELOG":
         env = dict(GORACE="log_path=%s exitcode=0" % (trace + ".race"))
     run_driver(driver, [st.family, "run", "-cases", cases, "-out", trace], env=env)
     viols, n, _ = tlc_trace(st.trace[0], st.trace[1], trace, work)
-    if any(tag in tags for _, _, tags in viols):
+    if any(tag in tags for t_, _, tags in viols if t_ == doc["case"].get("t", t_)):
         return True
     if st.race and _attempt < 4:
         # schedule-dependent observation (race detector, parallel run): the same case is executed again
